@@ -19,8 +19,7 @@ func H_C08_Step() {
 	kind := kinds[zzvrt.Choice("event", len(kinds))]
 	e.doEvent(kind)
 	// closures spawned by the event (delayed close, abort-done close)
-	zzvrt.RunSpawned("CloseConnection$1")
-	zzvrt.RunSpawned("handleState$1")
+	zzvrt.RunSpawnedExcept("setHandshakeTimer") // delayed-close closures; timer goroutines stay parked
 	zzvrt.Cover("c08.step.end")
 }
 
